@@ -30,6 +30,7 @@ RULE = ('well-formed images of ten formats built from layouts with the declared 
 REQUIRED_CLAUSES = ['size-under-carrier-and-constructor-options', 'final-size', 'prefix-before-lo-is-0', 'prefix-after-hi-is-declared', 'prefix-between-0-or-declared',
                     'no-structure-stays-0', 'wrapper-final-size']
 ASSUMPTIONS = ['the generator writes layouts from the public format descriptions (no qemu-img available to cross-check)']
+INTERPRETER_FLAGS = [[], ['-O'], [], ['-bb']]
 SHARDS = {'quick': 8, 'thorough': 16}
 MIN_DISTINCT = {'quick': 1500, 'thorough': 20000}
 LEVEL_TEXT = ('Exploration with a constructive oracle: the declared size is known because the generator wrote it; '
@@ -84,7 +85,7 @@ def eval_case(ctx, case):
                 if v != 0 and v != declared:
                     state['bad'] = state['bad'] or ('prefix-between-0-or-declared', pos, v)
         res = sl.feed(cls, data, cuts, monitor=False, per_chunk=cb, carrier=opt.get('carrier', 'bytes'),
-                      ctor_kw={'tracing': True} if opt.get('tracing') else None)
+                      ctor_kw={'tracing': True} if opt.get('tracing') else None, clone_at=opt.get('clone_at'))
         if opt:
             ctx.clause('size-under-carrier-and-constructor-options')
         ctx.case((spec['gen'], data, tuple(cuts), tuple(sorted(opt.items()))), nontrivial=(declared != 0 or expect == 'zero'))
@@ -114,7 +115,9 @@ def eval_case(ctx, case):
         # the same stream through InspectWrapper: plain, with the matching expected_format given, and from a source
         # that returns short reads; the size reported by the selected inspector is the declared one every time
         for how, kw in (('plain', {}), ('expected_format', {'expected': name}), ('short-reads', {'short_reads': True}),
-                        ('expected_format+short-reads', {'expected': name, 'short_reads': True})):
+                        ('expected_format+short-reads', {'expected': name, 'short_reads': True}),
+                        ('source-error-then-retry', {'source_faults': [1 + (n + len(cuts)) % (len(cuts) + 1)]}),
+                        ('first-read-fails-then-retry', {'source_faults': [1]})):
             res = sl.feed_wrapper(data, cuts, monitor=False, **kw)
             ctx.clause('wrapper-final-size')
             ctx.h('wrapper mode x format', '%s/%s' % (how, spec['gen']))
@@ -200,6 +203,8 @@ def run(ctx):
         if crng.random() < 0.5:
             k, c = crng.choice(small)
             scheds.append([k + '+tracing', c, {'tracing': True}])
+        k, c = crng.choice(small)
+        scheds.append([k + '+deepcopy', c, {'clone_at': crng.choice([0, 0, len(c) // 2, len(c), crng.randrange(len(c) + 1)])}])
         case = {'spec': spec, 'expect': 'declared', 'schedules': scheds, 'wrapper': crng.random() < 0.3}
         ctx.h('declared size class', size_class(truth['size']))
         if fmt == 'vhdx':
